@@ -907,7 +907,6 @@ type WeightedBipartitionStats struct {
 // as `Compare`, so if you do not need the branch length differences it will be more efficient to use `Compare` than `CompareWeighted`
 func CompareWeighted(refTree *Tree, compTrees <-chan Trees, tips, comparetreeidentical bool, cpus int) (<-chan WeightedBipartitionStats, error) {
 	var refEdges []*Edge
-	var compEdges []*Edge
 
 	var err error
 
@@ -947,7 +946,7 @@ func CompareWeighted(refTree *Tree, compTrees <-chan Trees, tips, comparetreeide
 					if inerr = treeV.Tree.ReinitIndexes(); inerr == nil {
 
 						// Edge index of compared tree
-						compEdges = treeV.Tree.Edges()
+						compEdges := treeV.Tree.Edges()
 						verifhook.Point("compareweighted.edges", cpu, treeV.Id)
 						compIndex := NewEdgeIndex(uint64(len(compEdges)*2), 0.75)
 						for i, e := range compEdges {
